@@ -67,6 +67,8 @@ class Scheduler(object):
     self.line_points = line_points or set()
     self.modfile = modfile
     self.local = _rt.local()
+    self.state_fn = None             # stateful search: canonical state at every decision point
+    self.point_keys = []
 
   # ---- called from virtual threads -------------------------------------
   def me(self):
@@ -173,7 +175,10 @@ class Scheduler(object):
       if c >= len(order):
         return self._fail("diverged")
       self.points.append({"n": len(order), "costly": bool(cur_enabled),
-                          "kinds": [t.pending[0] for t in order], "step": self.steps})
+                          "kinds": [t.pending[0] for t in order], "step": self.steps,
+                          "cands": tuple(sorted((t.vid, t.pending[0], t.pending[4]) for t in order))})
+      if self.state_fn is not None:
+        self.point_keys.append(self.state_fn(self))
       self.taken.append(c)
       nxt = order[c]
     else:
@@ -235,12 +240,15 @@ class Scheduler(object):
 def make_threading(get_sched):
   mod = types.ModuleType("threading")
 
+  mod._objects = []
+
   class Lock(object):
     _n = 0
     def __init__(self):
       self.owner = None
       Lock._n += 1
       self.label = "lock%d" % Lock._n
+      mod._objects.append(self)
     def acquire(self, blocking=True, timeout=-1):
       s = get_sched()
       if not blocking:
@@ -274,6 +282,7 @@ def make_threading(get_sched):
       self.flag = False
       Event._n += 1
       self.label = "event%d" % Event._n
+      mod._objects.append(self)
     def is_set(self):
       get_sched().point("event.is_set", self, None, False, self.label)
       return self.flag
@@ -332,7 +341,7 @@ def make_threading(get_sched):
   mod.Thread = Thread
   mod.ThreadError = RuntimeError
   mod.current_thread = lambda: get_sched().me()
-  mod._reset_labels = lambda: (setattr(Lock, "_n", 0), setattr(Event, "_n", 0))
+  mod._reset_labels = lambda: (setattr(Lock, "_n", 0), setattr(Event, "_n", 0), mod._objects.clear())
   return mod
 
 
